@@ -13,6 +13,7 @@ import (
 	"strings"
 	"sync"
 	"testing"
+	"unicode"
 
 	"pgregory.net/rapid"
 )
@@ -313,3 +314,5 @@ func TestMain(m *testing.M) {
 }
 
 func sortStrings(l []string) { sort.Strings(l) }
+
+func simpleFold(r rune) rune { return unicode.SimpleFold(r) }
